@@ -115,6 +115,21 @@ def main(argv):
             if rl != want:
                 c.violation("as_key_type(%s, type bits %#x, %d-octet key) = %s, expected %s" % (ALGN[alg], kt, len(key), rl[:50], want[:50]),
                             {"cmd": ln, "expected": want, "observed": rl}, key="keytype:%#x" % kt)
+    # ---- no memory between derivations: the same password under the other digest, the same digest with another password,
+    # repeated and alternating, in ONE process and one thread (a cache keyed too coarsely shows here)
+    pwa, pwb = b"maplesyrup", gen.rbytes(rng, 11, False)
+    seq = [(1, pwa), (2, pwa), (2, pwb), (1, pwb), (1, pwa), (1, pwa), (2, pwa), (2, pwb), (2, pwa), (1, pwb), (2, pwb)]
+    sl = ["keytype %d %d %s %s" % (alg, alg, pw.hex(), "8000000001020304") for alg, pw in seq]
+    for prof, exe in (("release", cd.rel), ("debug", cd.dbg)):
+        so = vf.run_lines(exe, sl, shards=1)
+        for k, ((alg, pw), o) in enumerate(zip(seq, so)):
+            c.count(("sequence", prof, k), True)
+            want = "OK " + scen.rfc_localize(ALGN[alg], scen.rfc_password_to_master(ALGN[alg], pw), bytes.fromhex("8000000001020304")).hex()
+            if o != want:
+                c.violation("derivation %d of a sequence in one process (%s password %s, after %s) gives %s, RFC 3414 A.2 gives %s (%s build)"
+                            % (k, ALGN[alg], pw.hex()[:20], ["%s/%s" % (ALGN[a], p.hex()[:8]) for a, p in seq[max(0, k - 2):k]], o[:50], want[3:43], prof),
+                            {"sequence": sl[:k + 1], "profile": prof, "observed": o, "expected": want}, key="derivation-depends-on-history")
+                break
     # ---- the functions exposed to Python and the keys a session really uses
     c.log("key cases compared")
     res, log = vf.run_api_worker("C12", {"calls": calls, "sessions": sess, "sockets": socks, "users": users})
